@@ -25,6 +25,10 @@ def fmg_modes(tier):
     for L, k, (n1, n2), ext, kind in itertools.product(Ls, ks, nus, exts, kinds):
         if k == 0 and kind != 0:
             continue
+        if L == 5 and (k > 1 or (n1, n2) != (1, 1)):
+            continue  # W/F-cycle terms on 5 levels grow exponentially with k; L=5 adds no new level predicate beyond L=4
+        if k == 3 and L > 3:
+            continue
         yield {"L": L, "FMG": True, "FMG_iterations": k, "FMG_cycle": kind, "extrapolation": ext, "cycle": 0, "nu1": n1, "nu2": n2,
                "max_iterations": 0, "abs_tol": True, "rel_tol": True, "exact": False}
 
